@@ -39,7 +39,6 @@ class SolverInputs:
 
 def run_solver(P, footprint, analytic, halo="given", precision="double", ctx="generic",
                levels_kind="array", cache=None, stubs=None, facts=None, max_paths=256):
-    alg.reset()
     S = SolverInputs(levels_kind)
     mod = P.module("bldfm.solver")
     fn = P.function("bldfm.solver", "steady_state_transport_solver")
